@@ -167,6 +167,11 @@ func (s *Scanner) scanEscape(quote rune) bool {
 		s.advance()
 		return true
 	default:
+		// the backslash may be the last character of the source
+		endColumn, escaped := s.column+2, string(s.peekNext())
+		if s.peekNext() == eof {
+			endColumn, escaped = s.column+1, ""
+		}
 		s.err(
 			ddperror.SYN_MALFORMED_LITERAL,
 			token.Range{
@@ -176,10 +181,10 @@ func (s *Scanner) scanEscape(quote rune) bool {
 				},
 				End: token.Position{
 					Line:   s.line,
-					Column: s.column + 2,
+					Column: endColumn,
 				},
 			},
-			fmt.Sprintf("Unbekannte Escape Sequenz '\\%v'", s.peekNext()),
+			fmt.Sprintf("Unbekannte Escape Sequenz '\\%s'", escaped),
 		)
 		return false
 	}
